@@ -279,6 +279,8 @@ def _worker(args):
         model = Model()
         try:
             budget = getattr(mod, 'BUDGET_S', {}).get(tier)
+            if phase == 'search':
+                budget = min(budget or 180, 180)
             import itertools
             stream = mod.cases(tier, seed, phase)
             if phase == 'main':
